@@ -105,6 +105,10 @@ func (p *gcpPicker) Pick(info balancer.PickInfo) (balancer.PickResult, error) {
 
 		switch cmd {
 		case grpc_gcp.AffinityConfig_BIND:
+			if !hasGCPCtx {
+				// No response message to take the keys from.
+				return
+			}
 			bindKeys, err := getAffinityKeysFromMessage(locator, gcpCtx.replyMsg)
 			if err == nil {
 				for _, bk := range bindKeys {
